@@ -10,7 +10,7 @@ One function per input line:
   temporaries in order of creation;  N : `sub $N, %rsp`;  R : return type;  c0 / u0 : `count()` / `new_unique_name()` at the
   first line of the body;  vals : initial values;  fuel : fuel of the abstract machine.
 
-  statements: `SKIP` | `X e` | `S s s` | `IF e s s` | `WHILE e s` | `FOR e|- e e|- s` (first clause or `-`, condition, third clause or `-`) | `DO s e` | `SW e s` | `CASE v s` | `DEF s` | `BRK` |
+  statements: `SKIP` | `X e` | `S s s` | `IF e s s` | `WHILE e s` | `FOR e|- e e|- s` (first clause or `-`, condition, third clause or `-`) | `DO s e` | `SW e s` | `CASE lo hi s` | `DEF s` | `BRK` |
   `CONT` | `RET e`  with expressions in the prefix notation of drv_c01 (`parseE`).
 
 Answer: `ok <K> <c1> <u1> <noConflict> <layoutOK> <fresh> <depth> | <text of the code, lines joined by ;;> | <abstract machine> | <machine>`
@@ -67,9 +67,9 @@ def parseS : Nat → List String → Option (FStmt × List String)
         let (e, r0) ← parseE (rest.length + 1) rest
         let (b, r1) ← parseS fuel r0
         some (.switch_ e b, r1)
-    | "CASE" :: v :: rest => do
+    | "CASE" :: lo :: hi :: rest => do
         let (b, r1) ← parseS fuel rest
-        some (.case_ (← v.toInt?) b, r1)
+        some (.case_ (← lo.toInt?) (← hi.toInt?) b, r1)
     | "DEF" :: rest => do
         let (b, r1) ← parseS fuel rest
         some (.default_ b, r1)
